@@ -385,7 +385,13 @@ func genReqRec(r *rand.Rand) reqRec {
 }
 
 func reqFiller(r *rand.Rand) []string {
-	switch r.Intn(9) {
+	switch r.Intn(11) {
+	case 9:
+		// a whole-line comment whose last byte is a backslash is still only a comment (pip: "comment lines are never continued";
+		// WFfiller .comment allows any text): the requirement on the next line must survive (seed C03m)
+		return []string{pick(r, []string{"# install into C:\\tools\\python\\", "#\\", "    # --hash=sha256:0123 \\", "\t# old==1.0 \\", "# \\\\"})}
+	case 10:
+		return []string{"# first half of a wrapped comment \\", "# second half"}
 	case 0:
 		return []string{""}
 	case 1:
